@@ -81,6 +81,9 @@ func RType(t int) reflect.Type {
 	if t == TVoid {
 		return voidType
 	}
+	if t == TSl {
+		return slType
+	}
 	if t < NumConcrete {
 		return ConcreteTypes[t]
 	}
@@ -95,12 +98,50 @@ const TVoid = NumTypes
 
 var voidType = reflect.TypeOf(struct{}{})
 
+// TSl is the pseudo type id of a service whose own type is the unnamed slice
+// type []I0 - the very type a group field over I0 has. Its values are
+// one-element slices around a carrier instance (a non-disposable pointer type
+// of the universe) that holds the ledger entry; it is registered plain or under
+// a name, never in a group, and never stands behind an interface alias.
+const TSl = NumTypes + 1
+
+var slType = reflect.TypeOf([]I0(nil))
+
+// IsSliceSvc reports whether t is a slice-typed service type.
+func IsSliceSvc(t int) bool { return t == TSl }
+
+// svcOf returns the harness instance behind a value the container handed out:
+// the value itself, or the carrier inside a slice-typed service.
+func svcOf(v any) Svc {
+	if sl, ok := v.([]I0); ok {
+		if len(sl) != 1 {
+			return nil
+		}
+		v = sl[0]
+	}
+	if s, ok := v.(Svc); ok && s != nil && !isNilValue(v) {
+		return s
+	}
+	return nil
+}
+
+// wrapOut turns a freshly made instance into the value a constructor returns
+// for an output of declared type id t.
+func wrapOut(t int, obj reflect.Value, target reflect.Type) reflect.Value {
+	if t == TSl {
+		return reflect.ValueOf([]I0{obj.Interface().(I0)})
+	}
+	return obj.Convert(target)
+}
+
 func IsDisposable(t int) bool { return t < NumD }
 
 func TypeName(t int) string {
 	switch {
 	case t == TVoid:
 		return "void"
+	case t == TSl:
+		return "SL"
 	case t < NumD:
 		return fmt.Sprintf("D%d", t)
 	case t < NumConcrete:
